@@ -82,7 +82,15 @@ def lean_failed_decls(output):
         name = None
         try:
             lines = open(os.path.join(LEAN_DIR, fn)).read().split('\n')
-            for i in range(min(int(ln), len(lines)) - 1, -1, -1):
+            decl = re.compile(r'\s*(?:@\[[^\]]*\]\s*)?(?:private\s+)?(?:theorem|lemma|def|example|instance|abbrev)\s+(\S+)')
+            # an error reported at the doc comment of a declaration belongs to the declaration that follows
+            j = min(int(ln), len(lines)) - 1
+            if lines[j].lstrip().startswith('/--'):
+                while j < len(lines) and not decl.match(lines[j]):
+                    j += 1
+                if j < len(lines):
+                    name = decl.match(lines[j]).group(1)
+            for i in ([] if name else range(min(int(ln), len(lines)) - 1, -1, -1)):
                 m = re.match(r'\s*(?:@\[[^\]]*\]\s*)?(?:private\s+)?(?:theorem|lemma|def|example|instance|abbrev)\s+(\S+)', lines[i])
                 if m:
                     name = m.group(1)
